@@ -33,6 +33,7 @@ type c20Prog struct {
 	NoMatch bool `json:"nomatch,omitempty"` // the first task also has a glob dependency that matches nothing
 	Big     int  `json:"big,omitempty"`     // every task has a further command that writes this many KiB to each stream
 	Bg      bool `json:"bg,omitempty"`      // every task: a command that leaves a background job writing later, then a slower command
+	Gaps    bool `json:"gaps,omitempty"`    // docstrings and values hold runs of several blanks
 	Long    bool `json:"long,omitempty"`    // docstrings and variable values are longer than a terminal line; listings also go through a pseudo terminal
 }
 
@@ -68,6 +69,9 @@ func (p c20Prog) varVal(i int) string {
 	if i == 2 {
 		return "from-staging"
 	}
+	if p.Gaps {
+		return []string{"val  one", "two   words  apart"}[i]
+	}
 	if p.Long {
 		return c20VarVals[i] + " " + strings.Repeat("and a value that goes on ", 5) + "end" + fmt.Sprint(i)
 	}
@@ -92,7 +96,19 @@ func (p c20Prog) doc(i int) string {
 	if p.Long {
 		return fmt.Sprintf("Describes %s here, %sand stops", p.names()[i], strings.Repeat("at length, ", 11))
 	}
+	if p.Gaps {
+		return fmt.Sprintf("Describes:  %s   here,    aligned", p.names()[i])
+	}
 	return fmt.Sprintf("Describes %s here", p.names()[i])
+}
+
+// afterName: what a listing line says after its first column, blanks inside it untouched
+func afterName(line, name string) string {
+	i := strings.Index(line, name)
+	if i < 0 {
+		return ""
+	}
+	return strings.TrimRight(strings.TrimLeft(line[i+len(name):], " \t"), " \t\r")
 }
 
 func (p c20Prog) cmd(t string, k int) (src, expanded, stdout, stderr string) {
@@ -117,7 +133,8 @@ func (p c20Prog) cmd(t string, k int) (src, expanded, stdout, stderr string) {
 	// ... and text that looks like a JSON escape: a report that is post-processed as text would mangle it
 	src = fmt.Sprintf("echo OUT_%s_%d%s_100%%d%%s'\\u0026<&>' && echo ERR_%s_%d_%%v >&2 && echo %s:%d >> \"$VLOG\"", t, k, v, t, k, t, k)
 	expanded = strings.ReplaceAll(src, "{{.VA}}", p.varVal(0))
-	return src, expanded, fmt.Sprintf("OUT_%s_%d%s_100%%d%%s\\u0026<&>\n", t, k, vv), fmt.Sprintf("ERR_%s_%d_%%v\n", t, k)
+	// the variable is echoed unquoted: the shell splits it into words, which echo joins with single blanks
+	return src, expanded, fmt.Sprintf("OUT_%s_%d%s_100%%d%%s\\u0026<&>\n", t, k, strings.Join(strings.Fields(vv), " ")), fmt.Sprintf("ERR_%s_%d_%%v\n", t, k)
 }
 
 func (p c20Prog) text() string {
@@ -186,6 +203,9 @@ func c20Progs(tier string) []c20Prog {
 								}
 								if nt <= 2 && nc == 0 && nv == 0 && fd && !docs && !def {
 									out = append(out, c20Prog{NTasks: nt, Chain: chain, FileDep: fd, Bg: true})
+								}
+								if docs && nc == 1 && fd && nt <= 2 && nv == 2 {
+									out = append(out, c20Prog{NTasks: nt, Docs: true, Default: def, NCmds: nc, NVars: nv, Chain: chain, FileDep: fd, Gaps: true})
 								}
 								if docs && nc == 1 && fd && (nt <= 3 || tier == "thorough") {
 									// long docstrings and values, listed on terminals of several widths
@@ -390,7 +410,7 @@ func (p c20Prog) checkListing(stdout string) []c20Obs {
 		}
 		if _, ok := docOf[f[0]]; ok {
 			got = append(got, f[0])
-			if d := strings.Join(f[1:], " "); d != docOf[f[0]] {
+			if d := afterName(l, f[0]); d != docOf[f[0]] {
 				obs = append(obs, c20Obs{"show-docstring", fmt.Sprintf("task %s listed with description %q, its docstring is %q", f[0], d, docOf[f[0]])})
 			}
 		}
@@ -410,7 +430,7 @@ func (p c20Prog) checkVars(stdout string) []c20Obs {
 		for i := 0; i < p.nvars(); i++ {
 			if len(f) > 0 && f[0] == c20VarNames[i] {
 				got = append(got, f[0])
-				if v := strings.Join(f[1:], " "); v != p.varVal(i) {
+				if v := afterName(l, f[0]); v != p.varVal(i) {
 					obs = append(obs, c20Obs{"vars-value", fmt.Sprintf("--vars lists %s with value %q, expected %q", f[0], v, p.varVal(i))})
 				}
 			}
@@ -521,6 +541,16 @@ func c20Run(root string, p c20Prog) (obs []c20Obs, inv int) {
 				obs = append(obs, c20Obs{"listing-ran-commands", fmt.Sprintf("no default task: spok without arguments executed %v", l)})
 			}
 			add("no arguments (listing)", p.checkListing(o.Stdout))
+		}
+	}
+	// --json without task names: the default task's run is reported like any other
+	if p.Default {
+		os.RemoveAll(filepath.Join(proj, ".spok"))
+		os.Remove(vlog)
+		o = bin.Run(proj, home, env, "--json")
+		inv++
+		if !died(o, "--json without task names") {
+			add("--json without task names (default task)", p.checkJSON(o.Stdout, []string{"default"}, readLog(vlog), nil))
 		}
 	}
 	// --quiet
